@@ -116,7 +116,10 @@ func (p *Prog) splices(fn *ssa.Function) []*spliceSite {
 		// only helpers that decide, not helpers that act: a helper with a mutating effect stays
 		// opaque (its result matches no tabled atom, so whatever depends on it fails closed)
 		mutates := false
-		for _, e := range p.closure(h) {
+		for _, e := range p.closure(fn) {
+			if e.Anchor != call {
+				continue
+			}
 			switch e.Kind {
 			case "W", "D", "EVENT", "FORBIDDEN", "UNRESOLVED":
 				mutates = true
@@ -259,7 +262,7 @@ func markHelperCounters(t *Term) *Term {
 	if len(t.A) == 0 {
 		return t
 	}
-	nt := &Term{Op: t.Op, S: t.S, F: t.F, T: t.T}
+	nt := &Term{Op: t.Op, S: t.S, F: t.F, T: t.T, Fn: t.Fn}
 	for _, a := range t.A {
 		nt.A = append(nt.A, markHelperCounters(a))
 	}
